@@ -105,8 +105,10 @@ CLAIMS["C11"] = (REFINE + "Props/C11: the hoisting operator set equals the docum
                  "exactly (active branch, position, operand) in order, once each; sorted before the chains of their step and after the previous "
                  "step; never inside a branch thread; the operand is replaced by the bound name; async_captures_before_chains_every_schedule: in the "
                  "async macros, under every schedule of gate openings, the block captures of step k come after the last event of step k-1 and before "
-                 "the first event of any chain of step k (key 2k / 2k+1 never decreases along the emitted events; failures and panics included). "
-                 + K2NOTE, NOTE_COMMON + ASYNC_NOTE,
+                 "the first event of any chain of step k (key 2k / 2k+1 never decreases along the emitted events; failures and panics included); "
+                 "generated_defs_in_position_order (Lemmas/CapsOrder): the hoisted definitions of every generated step are ascending in (branch, "
+                 "position of the action in its step, operand index) for positions of any size, and defs_printed_in_order: the printer writes them in "
+                 "that order in front of the step's join expression. " + K2NOTE, NOTE_COMMON + ASYNC_NOTE,
                  "Lean 4 table theorem + refinement + order theorems; K1/K2 differential", "§7 C11")
 CLAIMS["C12"] = (REFINE + "Props/C12: every capture of step k sees exactly the named branches' latest values (wrapped in try macros, finished "
                  "branches included), nothing in step 0; the generated code's visibility equals the reference's (invariant of the refinement). "
@@ -193,9 +195,12 @@ CLAIMS["C10"] = ("Props/C10 (Lean 4) + refinement: in the reference loop every r
                  "number of branches/steps/wrappers/block operands, every occurrence of a user identifier in the operands occurs exactly once "
                  "among the hoisted definitions and chain expressions of the generated steps (through emission templates, hoisting, the wrapper "
                  "stack with explicit and implicit closing, the split into steps); accepted_conserves_tokens: the same for whatever the parser "
-                 "accepts (Lemmas/ParseInit: `initial` occurs only in front of a branch, for every syn oracle); plus the K1 oracle that every "
-                 "operand marker occurring once in the input occurs exactly once in the real output. Moves/drops: K2 drop counters (C19 program).",
-                 NOTE_COMMON + "The conservation theorem speaks about the user-token-carrying fields of the structured code (definitions, chains, handler); that the printer writes each field once is by construction of Print.lean and compared token for token by K1; rustc's move semantics are outside Lean (partial).",
+                 "accepts (Lemmas/ParseInit: `initial` occurs only in front of a branch, for every syn oracle); expansion_conserves_tokens "
+                 "(Lemmas/PrintCount): the same for the emitted token stream - the occurrences of a user identifier in printCode(code) are those in "
+                 "the operands plus the handler, nothing of the macro's own (PMarker: none of the ~50 words the templates and the printer write); "
+                 "plus the K1 oracle that every operand marker occurring once in the input occurs exactly once in the real output. "
+                 "Moves/drops: K2 drop counters (C19 program).",
+                 NOTE_COMMON + "printCode is the model's printer; that it equals the real expansion token for token is what K1 compares on every run; rustc's move semantics are outside Lean (partial).",
                  "Lean 4 refinement + once-only theorems on the reference loop; K1 marker oracle; K2 event lists", "§7 C10")
 CLAIMS["C16"] = ("Props/C16 (Lean 4, ∀ contexts): the joiner form of every step (custom joiner applied exactly once iff >1 active branches, to "
                  "the active branches' chains in branch order; default tuple / P::join!); operands are `move ||` closures iff lazy ∧ multi; "
@@ -222,7 +227,9 @@ CLAIMS["C19"] = ("Props/C19 (Lean 4, ∀ programs): without `spawn` no operand i
                  "format!/spawn/collections of the macro's own); K2: move-only, Rc, & and &mut programs through the non-spawning macros must "
                  "compile and run, allocation counter = 0 around sequential evaluations, drop counter exact; non-spawning async: token oracle on long "
                  "chains / large / random programs (no Send/'static/boxed/clone, exactly one Box), 12-member chains over Rc and a borrowed Cell, "
-                 "allocations of a long chain = those of a short one.",
+                 "allocations of a long chain = those of a short one. no_hidden_cost_words (via Lemmas/PrintCount expansion_count): for every program "
+                 "and macro kind every occurrence of `clone` / `Arc` / `Rc` / `Mutex` / `boxed` in the emitted token stream is one the caller wrote "
+                 "(count in the expansion = count in the operands and the handler).",
                  NOTE_COMMON + "Whether rustc accepts a borrowing program and what the allocator does are type-system / run-time facts: observed (K2), partial.",
                  "Lean 4 syntactic theorems + K1 token oracle + K2 allocation/borrow programs", "§7 C19")
 PLANNED = {}
